@@ -330,6 +330,12 @@ pub fn extras(r: &mut Rng, cases: usize, big: bool) -> Vec<(String, ExtraCase)> 
         out.push(("Arr10001_u8".into(), run_extra(&arr, "Arr10001_u8", r, 3)));
         let v = vec![1u16; 10050];
         out.push(("Vec10050_u16".into(), run_extra(&v, "Vec10050_u16", r, 3)));
+        let hs: std::collections::HashSet<u32> = (0..10_020u32).collect();
+        out.push(("HashSet10020_u32".into(), run_extra(&hs, "HashSet10020_u32", r, 2)));
+        let bs: std::collections::BTreeSet<u16> = (0..10_015u16).collect();
+        out.push(("BTreeSet10015_u16".into(), run_extra(&bs, "BTreeSet10015_u16", r, 2)));
+        let bm: std::collections::BTreeMap<u16, u8> = (0..5_010u16).map(|k| (k, k as u8)).collect();
+        out.push(("BTreeMap5010".into(), run_extra(&bm, "BTreeMap5010", r, 2)));
         let bx: Box<[u8]> = vec![0u8; 10010].into_boxed_slice();
         out.push(("BoxSlice10010_u8".into(), run_extra(&bx, "BoxSlice10010_u8", r, 3)));
     }
